@@ -488,7 +488,13 @@ func (s *c08Sys) get(c *podAssignCache, node string, q c08Query) (c08Vec, bool, 
 	if m == nil {
 		return c08Vec{}, false, fmt.Errorf("nil metric without error")
 	}
-	return c08FromVector(c.vectorizer, est), true, nil
+	out := c08FromVector(c.vectorizer, est)
+	// Filter and Score add the incoming pod's estimate IN PLACE to the vector this getter returns (addEstimatedOfIncoming):
+	// do the same, so that a getter that hands out the cache's own vector shows up as drift on the next query
+	for i := range est {
+		est[i] += 1000
+	}
+	return out, true, nil
 }
 
 func (s *c08Sys) Invariants() []mc.Violation {
@@ -532,6 +538,11 @@ func (s *c08Sys) Invariants() []mc.Violation {
 		for _, q := range s.cfg.queries {
 			got, gok, gerr := s.get(s.cache, node, q)
 			want, wok, werr := s.get(fresh, node, q)
+			if again, aok, aerr := s.get(s.cache, node, q); gerr == nil && aerr == nil && gok && aok && again != got {
+				viol = append(viol, s.viol("query-not-read-only", q.Name, fmt.Sprintf(
+					"node %s query %s: the same query answered %v and then %v after the caller added an incoming pod's estimate to the first answer in place (as Filter/Score do): the getter handed out the cache's own vector",
+					node, q.Name, got, again)))
+			}
 			if gerr != nil || werr != nil {
 				viol = append(viol, s.viol("query-error", q.Name, fmt.Sprintf("node %s: unexpected error %v / %v", node, gerr, werr)))
 				continue
